@@ -43,7 +43,7 @@ Fixpoint update_nth {A} (n : nat) (x : A) (l : list A) : list A :=
   | y :: l', S n' => y :: update_nth n' x l'
   end.
 
-Definition internal_error : err := mkErr EUser (s2l "model: option id out of range") false.
+Definition internal_error : err := mkErrA EUser [] (s2l "model: option id out of range") false.
 
 (* getAliasNameFromPartialEntry: exact key first, else every key with that prefix (table order) *)
 Definition matches (tbl : list (str * nat)) (e : str) : list (str * nat) :=
@@ -58,6 +58,11 @@ Definition msg_ambiguous (tok : str) (cands : list str) : str :=
 Definition msg_unknown (name : str) : str := s2l "Unknown option '" ++ name ++ s2l "'".
 Definition msg_warn_unknown (name : str) : str := s2l "WARNING: Unknown option '" ++ name ++ s2l "'" ++ [10].
 Definition msg_missing_required (name : str) : str := s2l "Missing required parameter '" ++ name ++ s2l "'".
+
+Definition e_ambiguous (tok : str) (cands : list str) : err :=
+  mkErrA EAmbiguous [tok; bracket_list cands] (msg_ambiguous tok cands) false.
+Definition e_unknown (name : str) : err := mkErrA EUnknown [name] (msg_unknown name) false.
+Definition e_missing_required (msg : str) : err := mkErrA EMissingRequired [msg] msg true.
 
 Definition DD : str := [DASH; DASH].
 
@@ -97,7 +102,7 @@ Section WithEnv.
                         (oid, key, List.length (p_args p), os_min sp, os_max sp))))
         | _, _ => Err internal_error
         end
-    | ms => Err (mkErr EAmbiguous (msg_ambiguous tok (sort_strs (keys ms))) false)
+    | ms => Err (e_ambiguous tok (sort_strs (keys ms)))
     end.
 
   Definition wants (c : cursor) : bool :=
@@ -114,7 +119,7 @@ Section WithEnv.
   Definition try_cur (st : pst) (c : cursor) (t : str) : result (option pst) :=
     let '(oid, key, i, mn, mx) := c in
     if Nat.ltb i mn then
-      if looks_like_option md t then Err (mkErr EArgWithDash (msg_arg_with_dash key) true)
+      if looks_like_option md t then Err (e_arg_with_dash key)
       else bind (save_to st oid [t]) (fun st' => Ok (Some st'))
     else if Nat.ltb i mx then
       if stops oid t then Ok None
@@ -168,7 +173,7 @@ Section WithEnv.
         | Err e => Err e
         | Ok None => advance_eof st tok pend'
         | Ok (Some (st', (oid, key, i, mn, mx))) =>
-            if Nat.ltb i mn then Err (mkErr EMissingArg (msg_missing_arg key) true)
+            if Nat.ltb i mn then Err (e_missing_arg key)
             else advance_eof st' tok pend'
         end
     end.
@@ -234,7 +239,7 @@ Section WithEnv.
         match nth_error specs oid with
         | None => Err internal_error
         | Some sp =>
-            if Nat.ltb i (os_min sp) then Err (mkErr EMissingArg (msg_missing_arg key) true)
+            if Nat.ltb i (os_min sp) then Err (e_missing_arg key)
             else advance_eof st tok pend
         end
     end.
@@ -260,8 +265,8 @@ Section WithEnv.
     match nth_error specs oid, nth_error st oid with
     | Some sp, Some os =>
         if os_required sp && negb (o_called os) then
-          Some (mkErr EMissingRequired
-                  (match os_reqmsg sp with [] => msg_missing_required (os_name sp) | m => m end) true)
+          Some (e_missing_required
+                  (match os_reqmsg sp with [] => msg_missing_required (os_name sp) | m => m end))
         else None
     | _, _ => None
     end.
@@ -289,7 +294,7 @@ Section WithEnv.
     | [] => ([], None)
     | n :: names' =>
         match m with
-        | Fail => ([], Some (mkErr EUnknown (msg_unknown n) false))
+        | Fail => ([], Some (e_unknown n))
         | Warn => let (w, e) := unknown_policy m names' in (msg_warn_unknown n :: w, e)
         | Pass => unknown_policy m names'
         end
